@@ -59,6 +59,8 @@ def run(ctx):
                 else:
                     if K in sf: del sf[K]
                     spec[K] = None
+            if i % 4 == 0:
+                tree["song.ssc"] = str(sf)
             for fsname in ("native", "memory"):
                 if fsname == "native":
                     root = os.path.join(tmp, "d%d" % i); fstools.make_native(tree, root)
@@ -67,7 +69,13 @@ def run(ctx):
                     fsys = fstools.make_memory({"Song": tree}); join, norm, split = fs.path.join, fs.path.normpath, fs.path.split; sdir = "/Song"
                 listing = fsys.listdir(sdir)
                 try:
-                    assets = Assets(sdir, simfile=sf, filesystem=fsys)
+                    if i % 4 == 0 and "song.ssc" in tree:
+                        # the asset loader opens the directory's own simfile when none is supplied
+                        assets = Assets(sdir, filesystem=fsys)
+                        if [[k, v] for k, v in assets.simfile.items()] != [[k, v] for k, v in sf.items()]:
+                            res.violation({"fs": fsname, "tree": list(tree)}, "Assets(dir) did not load the directory's simfile"); continue
+                    else:
+                        assets = Assets(sdir, simfile=sf, filesystem=fsys)
                 except Exception as e:
                     res.violation({"fs": fsname, "tree": list(tree)}, "Assets() raised", impl=core.exc_name(e)); continue
                 for K, attr in KINDS.items():
